@@ -1,7 +1,7 @@
 ----------------------------- MODULE SparqlSem -----------------------------
 (* C13, second half: a SPARQL query returns exactly the solutions that evaluating it over the triple set yields.
    Executable definition of the SPARQL algebra (W3C SPARQL 1.1 Query, section 18) for the core the property lists -
-   basic graph patterns, joins on shared variables, FILTER, OPTIONAL, UNION, projection, DISTINCT, LIMIT, COUNT( * ) -
+   basic graph patterns, joins on shared variables, FILTER, OPTIONAL, UNION, projection, DISTINCT, ORDER BY, LIMIT, COUNT( * ) -
    plus INSERT DATA / DELETE DATA as the transitions of the data set.  TLC evaluates it for every recorded
    (data set, query) and compares with the rows the engine returned (bags; sets under DISTINCT).
 
@@ -63,9 +63,24 @@ Rows(D, q) == LET sols == EvalGroup(D, q.where) IN [i \in DOMAIN sols |-> RowOf(
 BagOf(s) == [r \in Rng(s) |-> Cardinality({i \in DOMAIN s : s[i] = r})]
 SubBag(a, b) == \A r \in DOMAIN a : r \in DOMAIN b /\ a[r] <= b[r]
 Min2(a, b) == IF a < b THEN a ELSE b
+\* ORDER BY ?v [DESC] (v is one of the selected variables, bound in every solution, of one kind - so term numbers order
+\* like the terms) with an optional LIMIT: the rows are sorted by the key, they are a sub-bag of the solutions (of the distinct
+\* solutions under DISTINCT) of the right size, and no omitted solution sorts strictly before the last row returned.
+HasOrder(q) == "order" \in DOMAIN q
+OrderedOk(q, exp0, rows) ==
+  LET exp == IF q.distinct THEN SetSeq(Rng(exp0)) ELSE exp0
+      k == CHOOSE i \in DOMAIN q.sel : q.sel[i] = q.order.v
+      before(a, b) == IF q.order.desc THEN a[k] > b[k] ELSE a[k] < b[k]
+      want == IF q.limit < 0 THEN Len(exp) ELSE Min2(q.limit, Len(exp))
+      be == BagOf(exp)  br == BagOf(rows)
+  IN /\ Len(rows) = want
+     /\ \A i \in 1..(Len(rows) - 1) : ~before(rows[i + 1], rows[i])
+     /\ SubBag(br, be)
+     /\ (rows # <<>> => \A r \in DOMAIN be : (IF r \in DOMAIN br THEN be[r] > br[r] ELSE TRUE) => ~before(r, rows[Len(rows)]))
 Agrees(D, q, rows) ==
   LET exp == Rows(D, q) IN
-  IF q.count THEN rows = << <<Len(exp)>> >>
+  IF HasOrder(q) THEN OrderedOk(q, exp, rows)
+  ELSE IF q.count THEN rows = << <<Len(exp)>> >>
   ELSE IF q.distinct
        THEN (IF q.limit < 0 THEN Rng(rows) = Rng(exp) /\ Len(rows) = Cardinality(Rng(exp))
              ELSE Rng(rows) \subseteq Rng(exp) /\ Len(rows) = Cardinality(Rng(rows)) /\ Len(rows) = Min2(q.limit, Cardinality(Rng(exp))))
